@@ -124,7 +124,7 @@ def gen_atoms(rng, n, tag="S", id_base=1000.0, cell="ortho", kinds=None, tables=
 
 def describe(a):
     """small JSON-able description of an Atoms object for samples/witnesses"""
-    d = {"n": len(a), "elements": list(a.elements)[:12], "atom_types": [int(x) for x in a.atom_types][:12],
+    d = {"n": len(a), "elements": [str(a.atom_type_elements[int(t)]) if int(t) < len(a.atom_type_elements) else "?" for t in a.atom_types][:12], "atom_types": [int(x) for x in a.atom_types][:12],
          "n_atom_types": len(a.atom_type_elements), "pair_table": len(a.pair_coeffs),
          "cell": None if a.cell is None else np.round(np.asarray(a.cell, float), 4).tolist()}
     for kind in KNAMES:
